@@ -3,6 +3,7 @@
 //   ITERERR start k                                -> run the C iterator past 2^64 from start, then k more next calls,
 //                                                     then prev, jump_to(100), next, clear, next, free; prints everything
 //   NULLSIZE code a b                              -> primesieve_generate_primes with size == NULL
+//   PRESIZE code a b                               -> primesieve_generate_primes with *size preset to 777777: "ptr|null size=<*size> errno=..."
 #include <primesieve.h>
 #include "common.hpp"
 #include <cerrno>
@@ -36,6 +37,10 @@ int main()
       primesieve_clear(&it); std::cout << " clear:" << primesieve_next_prime(&it);
       primesieve_free_iterator(&it); primesieve_free_iterator(&it);
       std::cout << " freed" << std::endl;
+    }
+    else if (t[0] == "PRESIZE") {
+      size_t size = 777777; errno = 0; void* p = primesieve_generate_primes(u64(t[2]), u64(t[3]), &size, atoi(t[1].c_str()));
+      std::cout << (p ? "ptr" : "null") << " size=" << size << " errno=" << (errno == EDOM ? "EDOM" : std::to_string(errno)) << std::endl; primesieve_free(p);
     }
     else if (t[0] == "NULLSIZE") {
       errno = 0; void* p = primesieve_generate_primes(u64(t[2]), u64(t[3]), nullptr, atoi(t[1].c_str()));
